@@ -75,6 +75,8 @@ def strat_ident(tier):
         "plane": st.tuples(st.floats(-5, 5), st.floats(-5, 5), st.floats(-5, 5)).map(list),
         "df": st.booleans(), "raw_noise": st.booleans(), "meta": st.booleans(),
         "extra": st.sampled_from([None, None, "channels2", "channels3", "zstack"]),
+        # camera counts as stored by the camera: unsigned integers (dark counts may exceed the signal in a pixel)
+        "counts": st.sampled_from([None, None, "uint8", "uint16"]),
     })
 
 
@@ -117,10 +119,22 @@ def run_ident(case):
             raw.attrs["noise_sd"] = None
         if case["meta"]:
             bg = update_metadata(bg, noise_sd=0.2)
+        if case.get("counts"):
+            # the same kind of images as unsigned counts; the dark image is made comparable to the raw one so that
+            # raw - dark is negative in some pixels
+            dt = np.dtype(case["counts"])
+            top = 200 if dt == np.uint8 else 40000
+            rngc = np.random.RandomState(case["seed"] % (2 ** 31))
+            shp = raw.values.shape
+            raw = raw.copy(data=rngc.randint(5, top // 4, size=shp).astype(dt))
+            bg = bg.copy(data=rngc.randint(top // 2, top, size=shp).astype(dt))
+            if df is not None:
+                df = df.copy(data=rngc.randint(0, top // 4, size=shp).astype(dt))
+            labels.append("unsigned_counts")
         fr, fb = det_fingerprint(raw), det_fingerprint(bg)
         r = bg_correct(raw, bg, df)
-        d = df.values if df is not None else 0.0
-        want = (raw.values - d) / (bg.values - d)
+        d = df.values.astype(float) if df is not None else 0.0
+        want = (raw.values.astype(float) - d) / (bg.values.astype(float) - d)
         if np.abs(r.values - want).max() > 1e-14 * np.abs(want).max() * TOLX:
             return Outcome(failure("bg_correct_formula", "bg_correct != (raw-df)/(bg-df): max diff %.3g" % np.abs(r.values - want).max(), df=case["df"]), True, labels)
         one = bg_correct(raw, raw)
